@@ -248,6 +248,11 @@ def apply_pre(f, c, dims):
     attempt(lambda: next(iter(f.mesh)))
     attempt(lambda: f.norm.array.sum())
     attempt(lambda: get_op(f, op))
+    # every reader of the component-to-axis mapping once (forward and reversed look-ups)
+    attempt(lambda: f.curl)
+    attempt(lambda: f.div)
+    if nd >= 2:
+        attempt(lambda: f.rotate90(dims[0], dims[1]))
     skipped = []
     for step in c["pre"]:
         name, args = step[0], step[1:]
@@ -282,6 +287,41 @@ def apply_pre(f, c, dims):
             st, _r = attempt(wr)
         elif name == "valid_set":
             st, _r = attempt(lambda: setattr(f, "valid", np.array(args[0], dtype=bool).reshape(tuple(f.mesh.n))))
+        elif name == "map_item":
+            # the mapping changed IN PLACE on the dictionary the field hands out (no setter involved)
+            mode, i, j = args
+
+            def mp():
+                vm = f.vdim_mapping
+                keys = list(f.vdims)
+                k1, k2 = keys[i % len(keys)], keys[j % len(keys)]
+                v1, v2 = vm[k1], vm[k2]
+                if mode == "swap":
+                    vm[k1] = v2
+                    vm[k2] = v1
+                elif mode == "update":
+                    vm.update({k1: v2, k2: v1})
+                elif mode == "delins":
+                    del vm[k1]
+                    del vm[k2]
+                    vm[k2] = v1
+                    vm[k1] = v2
+                else:       # one component re-pointed at an axis that is not a dimension of the mesh
+                    vm[k1] = "nope"
+            st, _r = attempt(mp)
+        elif name == "vdims_set":
+            mode = args[0]
+
+            def vs():
+                labels = list(f.vdims)
+                f.vdims = (labels[1:] + labels[:1]) if mode == "perm" else [f"w{t}k" for t in range(len(labels))]
+            st, _r = attempt(vs)
+        elif name == "map_set":
+            def ms():
+                labels = list(f.vdims)
+                vals_ = [f.vdim_mapping[l] for l in labels]
+                f.vdim_mapping = dict(zip(labels, vals_[1:] + vals_[:1]))
+            st, _r = attempt(ms)
         else:
             st = "err"
         if st != "ok":
@@ -608,11 +648,13 @@ def with_history(c, rng):
     ncell = math.prod(sh)
     steps = []
     cur = list(sh)        # cells per axis as the history proceeds
+    mapped = nv >= 2 and c.get("mapclass") in ("default", "permutation") and nv == nd
     unsure = False
     pow2 = [F(1, 4), F(1, 2), F(2), F(4), F(-1), F(-2), F(-1, 2)]
     for _ in range(rng.randint(1, 3)):
         kind = rng.choice(["mesh_scale", "mesh_scale", "mesh_translate", "region_scale", "region_translate",
-                           "field_rot", "mesh_rot", "array_write", "valid_set"])
+                           "field_rot", "mesh_rot", "array_write", "valid_set"]
+                          + (["map_item", "map_item", "vdims_set", "map_set"] if mapped else []))
         if kind in ("mesh_scale", "region_scale"):
             fac = [rng.choice(pow2)] if rng.random() < 0.4 else [rng.choice(pow2) for _ in range(nd)]
             steps.append([kind, [g.qs(x) for x in fac]])
@@ -635,6 +677,16 @@ def with_history(c, rng):
             steps.append([kind, rng.choice(["add_comp0", "first_cell", "times"]), rng.choice([2, 3, -4])])
         elif kind == "valid_set":
             steps.append([kind, [rng.random() > 0.3 for _ in range(ncell)]])
+        elif kind == "map_item":
+            i, j = rng.sample(range(nv), 2) if nv >= 2 else (0, 0)
+            steps.append([kind, rng.choice(["swap", "update", "delins", "swap", "foreign"]), i, j])
+            unsure = True
+        elif kind == "vdims_set":
+            steps.append([kind, rng.choice(["perm", "new"])])
+            unsure = True
+        elif kind == "map_set":
+            steps.append([kind])
+            unsure = True
     if not steps:
         steps.append(["mesh_scale", [g.qs(F(-2))]])
     c["pre"] = steps
@@ -1047,6 +1099,18 @@ def oracle_ok(rec, c, f, dims, res, op, tol, exact, fully_valid, scale):
                     ok = close(np.asarray(got).reshape(-1), np.array([float(x) for x in exp]), TOL * scale)
                 if not ok:
                     flag("polynomial-not-exact-" + op)
+    # --- a constant background does not change any of the four operators
+    if exact and f.array.dtype == np.float64 and maxabs(f.array) <= 2.0 ** 12 and not c.get("pre"):
+        for cst in (2.0 ** 30, -1.0e7):
+            stc, fc = attempt(lambda: df.Field(f.mesh, nvdim=nv, value=f.array + cst, valid=f.valid.copy(),
+                                               vdims=f.vdims, vdim_mapping=dict(f.vdim_mapping)))
+            if stc != "ok":
+                continue
+            stc, rc = attempt(lambda: get_op(fc, op))
+            if stc != "ok":
+                flag("constant-offset-refused")
+            elif not np.array_equal(rc.array, res.array):
+                flag("constant-offset-changes-" + op)
     # --- vector identities on fully valid meshes
     if fully_valid:
         hmin = min(float(x) for x in f.mesh.cell)
